@@ -20,6 +20,21 @@ Theorem C14_exclusive :
 Proof. exact exclusive. Qed.
 Print Assumptions C14_exclusive.
 
+(* The same with the chooser of the real code (Model/C03's selection, each build with its own strategy and
+   the deficits it asks for): its premise is discharged by C03_select_sound / C03_sqlite_sound. *)
+Theorem C14_exclusive_real_chooser :
+  forall fpb shuffle, (forall l, Permutation.Permutation l (shuffle l)) -> (0 <= fpb)%Z ->
+  forall strat amount n more finish w0,
+  NoDup (map (fun e : utxo * bool => uid (fst e)) w0) -> (forall e, In e w0 -> snd e = false) ->
+  forall sched,
+  let st := run true n (c03_choose fpb shuffle strat amount) more finish sched (init w0) in
+  (forall b1 b2 i, b1 <> b2 -> In i (held_ids st b1) -> In i (held_ids st b2) -> False) /\
+  (forall b, NoDup (held_ids st b)) /\
+  (forall i, In i (reserved_ids (wal st)) <-> exists b, b < n /\ In i (held_ids st b)) /\
+  (forall b u, In u (held (bs st b)) -> ~ In u (unreserved (wal st))).
+Proof. exact exclusive_c03. Qed.
+Print Assumptions C14_exclusive_real_chooser.
+
 (* Once every build has failed, been abandoned or been broadcast nothing is reserved; if none was
    broadcast the wallet is exactly what it was: every output is available again. *)
 Theorem C14_all_released :
